@@ -1,6 +1,7 @@
 package main
 
 import (
+	"encoding/binary"
 	"encoding/json"
 	"fmt"
 	"net"
@@ -658,6 +659,19 @@ func runStream(in *Input) lib.Case {
 		}
 		wire, sends, crash, sendHung := sendCaptured(items, failAt)
 		if failAt >= 0 {
+			// Behind a part-written frame the receiver cuts the stream at other
+			// places than the sender did. The codec table must know the buffers it
+			// will then ask the decoder about: every buffer a plain length-prefix
+			// walk over the wire finds gets its oracle verdict (table entries only;
+			// what the receiver does with them is the model's business).
+			for rest := wire; len(rest) >= 4; {
+				n := int(binary.BigEndian.Uint32(rest))
+				if n > len(rest)-4 || n > 1<<20 {
+					break
+				}
+				pl.add(rest[4 : 4+n])
+				rest = rest[4+n:]
+			}
 			// the class says what the history really was
 			firstFail := -1
 			for i, ok := range sends {
